@@ -357,8 +357,21 @@ func (r *reqState) encode() {
 			r.bounds = append(r.bounds, len(w))
 		}
 		if sp.Poison {
+			// not gzip at all, or (by the parity of the first message's seed) a
+			// well-formed gzip stream that only fails late - after plaintext
+			// has been produced: a wrong CRC, or the stream cut short
 			junk := patternBytes(uint64(sp.ID)+77, 40)
-			w = append(w, 1, 0, 0, 0, byte(len(junk)))
+			if len(sp.Msgs) > 0 {
+				z := wire.Gzip(append(patternBytes(sp.Msgs[0].Seed, 300), marshalMsg(sp.Codec, r.clientMsg(0))...))
+				switch sp.Msgs[0].Seed % 3 {
+				case 1:
+					z[len(z)-6] ^= 0x55 // CRC-32 of the trailer
+					junk = z
+				case 2:
+					junk = z[:len(z)-9]
+				}
+			}
+			w = append(w, 1, 0, 0, byte(len(junk)>>8), byte(len(junk)))
 			w = append(w, junk...)
 		}
 		if sp.Proto == "grpcwebtext" {
@@ -439,7 +452,25 @@ func (r *reqState) encode() {
 		h.Set("Sec-Websocket-Key", base64.StdEncoding.EncodeToString([]byte("sim-websocket-16")))
 		for i := range sp.Msgs {
 			mask := [4]byte{byte(sp.ID), byte(i), 0x5a, 0xa5}
-			w = append(w, wire.WSClientFrame(ws.OpText, marshalMsg("json", r.clientMsg(i)), true, mask)...)
+			payload := marshalMsg("json", r.clientMsg(i))
+			// how the client frames the message is derived from the message's
+			// seed: text or binary opcode (browsers send Blob/ArrayBuffer as
+			// binary), whole or in two fragments, with or without a ping first
+			seed := sp.Msgs[i].Seed
+			op := ws.OpText
+			if seed%3 == 0 {
+				op = ws.OpBinary
+			}
+			if seed%7 == 0 {
+				w = append(w, wire.WSClientFrame(ws.OpPing, []byte("p"), true, mask)...)
+			}
+			if seed%5 == 0 && len(payload) >= 2 {
+				k := 1 + int(seed/5)%(len(payload)-1)
+				w = append(w, wire.WSClientFrame(op, payload[:k], false, mask)...)
+				w = append(w, wire.WSClientFrame(ws.OpContinuation, payload[k:], true, mask)...)
+			} else {
+				w = append(w, wire.WSClientFrame(op, payload, true, mask)...)
+			}
 			r.bounds = append(r.bounds, len(w))
 		}
 		switch sp.WSClose {
